@@ -158,6 +158,7 @@ func (tr *Tr) initComps() {
 	tr.declComp("alloc", S64)
 	tr.declComp("ev.len", GhostIdxSort())
 	tr.declComp("wcount", ArrS(S64, S64))
+	tr.declComp("rcount", ArrS(S64, S64))
 	for _, n := range []string{"ev.kind", "ev.dev", "ev.off", "ev.n", "ev.boff", "ev.epoch", "ev.res", "ev.err"} {
 		tr.declComp(n, ArrS(GhostIdxSort(), S64))
 	}
